@@ -480,7 +480,7 @@ def check_dir_mtime(ctx):
                                      for k in m.keywords):
             a = m.args[0]
             if isinstance(a, (ast.GeneratorExp, ast.ListComp)) and len(
-                    a.generators) == 1 and not a.generators[0].ifs and U(
+                    a.generators) == 1 and U(
                         a.elt) == '%s.stat().st_mtime' % U(
                             a.generators[0].target):
                 it = en.expand(a.generators[0].iter)
@@ -491,7 +491,8 @@ def check_dir_mtime(ctx):
                         f.module, it.func) or '').endswith(
                             'os.scandir') and it.args and U(
                                 it.args[0]) == path_p:
-                    return {'entries'}
+                    return {'?filtered listing'} if a.generators[0].ifs \
+                        else {'entries'}
         return None
 
     ok_cmp = ok_upd = False
